@@ -31,9 +31,11 @@ RULE = ('extrema_exhaustive: every sequence of length 0..L over the alphabet %s 
         '{peaks, troughs, abs_peaks}, exact integer equality with the model, None <-> none. extrema_random: long signals from 6 families '
         '(integer levels with ties/plateaus, sinusoid sums, quantised, scaled, trend) x pad_width in {0..5, 8, 50} x 3 modes x parabolic on/off. '
         'envelope: deterministic sweep over every alphabet sequence of length 5..L with >= 2 extrema (options cycled through parabolic on/off x '
-        '{splrep, pchip, mono_pchip} x {upper, lower, combined} x pad 1..5), plus random short alphabet sequences and long signals x the same options x pad 0..5, 8, 50, '
-        '2-D column input and the emd.utils re-export; a further block stores the signal as int64 / int32 (integer levels, integer random walks, quantised sinusoid sums) '
-        'or float32 (all families) instead of float64. Each implementation call has a 2 s budget (a re-padding loop that never covers the edges is reported as raises:Timeout). '
+        '{splrep, pchip, mono_pchip} x {upper, lower, combined} x pad 1..5), plus random short alphabet sequences and long signals (9 families incl. data in small physical units, 3e-13 .. 1e-9, '
+        'bursts separated by quiet stretches, and ripples of a few units in the last place on a large offset) x the same options x pad 0..5, 8, 50 (8 and 50: outside the quantifier, mechanism-level verdicts only), '
+        '2-D column input; a block of burst/gap signals under the combined cubic-spline envelope and of small-unit signals with refinement; a further block stores the signal as int64 / int32 (integer levels, integer random walks, quantised sinusoid sums) '
+        'or float32 (all families) instead of float64. Each implementation call has a 4 s budget (a re-padding loop that never covers the edges is reported as raises:Timeout, mechanism-level). '
+        'Magnitude / envelope tolerance 1e-9*max(1,n)*amplitude for amplitudes below one (homogeneity), 1e-9*max(1,n,|x|) otherwise. '
         'A case is non-trivial when the (mode-transformed) signal has at least two strict extrema, so that padding/interpolation happens; '
         'distinct by content hash.' % (_ext.LEVELS,))
 
@@ -42,6 +44,24 @@ TOL = 1e-9
 
 def _scale(x, n=0):
     return max([1.0, float(n)] + [abs(float(v)) for v in x])
+
+
+def _mscale(x, n=0):
+    """scale of the MAGNITUDE / envelope tolerance of the instance checks: as _scale, but relative to the signal's own amplitude
+    when that is below one (extrema refinement and interpolation are homogeneous in the signal values: data in small physical
+    units must be reproduced to the same relative accuracy as order-one data; an absolute 1e-9 would make the check vacuous)"""
+    amp = max([abs(float(v)) for v in x] + [0.0])
+    if 0.0 < amp < 1.0:
+        return max(1.0, float(n)) * amp
+    return _scale(x, n)
+
+
+def _lit(fs, literal):
+    """downgrade every failure of the list to mechanism level unless `literal`"""
+    if not literal:
+        for f in fs:
+            f.literal = False
+    return fs
 
 
 # ---------------------------------------------------------------------------------------------
@@ -80,11 +100,14 @@ class ExtremaExhaustive(Stream):
             except _ext.Timeout as e:
                 hung = True
                 res.append({'error': 'Timeout'})
-                fails.setdefault('raises:Timeout', 'x=%s pad=%d mode=%s: %r' % (seq, w, mode, e))
+                # termination is proved about the model (C05.paddedExtrema_terminates) but is not in the statement: mechanism-level
+                fails.setdefault('raises:Timeout', ['x=%s pad=%d mode=%s: %r' % (seq, w, mode, e), False])
                 continue
             except Exception as e:  # noqa
                 res.append({'error': type(e).__name__})
-                fails.setdefault('raises:' + type(e).__name__, 'x=%s pad=%d mode=%s: %r' % (seq, w, mode, e))
+                # fewer than 3 samples: there is no interior sample, hence no strict extremum; rejecting such an input
+                # instead of answering None does not contradict the statement
+                fails.setdefault('raises:' + type(e).__name__, ['x=%s pad=%d mode=%s: %r' % (seq, w, mode, e), len(seq) >= 3])
                 continue
             if r is None:
                 res.append(None)
@@ -93,10 +116,11 @@ class ExtremaExhaustive(Stream):
                 res.append([r['locs'], r['mags']])
                 fs = _ext.check_padded(seq, w, mode, False, r['locs'], r['mags'])
                 if not r['int']:
-                    fs.append(Failure('locations-not-integer', ''))
+                    fs.append(Failure('locations-not-integer', 'unrefined locations %s are not sample indices' % (r['locs'][:8],)))
             for f in fs:
-                fails.setdefault(f.kind, 'x=%s pad=%d mode=%s: %s' % (seq, w, mode, f.detail))
-        return {'res': res, 'fails': sorted(fails.items())}
+                key = f.kind if f.literal else f.kind + '#mechanism'
+                fails.setdefault(key, ['x=%s pad=%d mode=%s: %s' % (seq, w, mode, f.detail), bool(f.literal)])
+        return {'res': res, 'fails': sorted([k.split('#')[0], d, lit] for k, (d, lit) in fails.items())}
 
     def ops(self, case, out):
         return [_ext.padext_op(seq, w, mode, False) for seq, mode, w in self._combos(case)]
@@ -107,6 +131,8 @@ class ExtremaExhaustive(Stream):
         for (seq, mode, w), o, r in zip(self._combos(case), out['res'], results):
             where = 'x=%s pad=%d mode=%s' % (seq, w, mode)
             if isinstance(o, dict):
+                if len(seq) < 3 and o['error'] not in ('Timeout', 'NotRun'):
+                    continue        # an input without interior samples was rejected instead of answered with None
                 return '%s: implementation raised %s, model %s' % (where, o['error'], r.raw[:120])
             if o is None:
                 if r.status != 'none':
@@ -122,8 +148,8 @@ class ExtremaExhaustive(Stream):
 
     def holds(self, case, out):
         if isinstance(out, ImplError):
-            return [Failure('raises:' + out['error'], out['msg'])]
-        return [Failure(k, d) for k, d in out['fails']]
+            return [Failure('raises:' + out['error'], out['msg'], literal=out['error'] != 'Timeout')]
+        return [Failure(k, d, literal=lit) for k, d, lit in out['fails']]
 
     def tags(self, case, out):
         t = ['len=%d' % case['len']]
@@ -153,6 +179,12 @@ class ExtremaSingle(Stream):
             {'x': [0, 1, 0, 2, 0, 1, 0, 3, 1, 2, 0.5], 'pad': 3, 'mode': 'peaks', 'parab': 1},
             {'x': [0, 1, 0, 2, 0, 1, 0, 3, 1, 2, 0.5], 'pad': 0, 'mode': 'troughs', 'parab': 1},
             {'x': [0, 2, 1, 3, 0, 1, 0], 'pad': 2, 'mode': 'peaks', 'parab': 0, 'col2d': 1},
+            # data in small physical units (round-3 seeded change: curvature below an ABSOLUTE 1e-12 treated as flat -> unrefined)
+            {'x': [v * 3e-13 for v in (0, 1, 0.25, 2, 0.5, 1.5, 0.1, 3, 1.2, 2.2, 0.5)], 'pad': 2, 'mode': 'peaks', 'parab': 1, 'family': 'tiny'},
+            {'x': [v * 2.5e-15 for v in (0, 1, 0.25, 2, 0.5, 1.5, 0.1, 3, 1.2, 2.2, 0.5)], 'pad': 1, 'mode': 'troughs', 'parab': 1, 'family': 'tiny'},
+            # ripples of 1-3 units in the last place on an offset of 1024: every strict extremum counts (round-2 seeded change: prominence filter)
+            {'x': [1024.0 + 2.2737367544323206e-13 * k for k in (0, 2, 1, 3, 0, 1, 0, 2, 1, 3, 2)], 'pad': 2, 'mode': 'peaks', 'parab': 0, 'family': 'ripple'},
+            {'x': [-4096.0 + 9.094947017729282e-13 * k for k in (0, 2, 1, 3, 0, 1, 0, 2, 1, 3, 2)], 'pad': 1, 'mode': 'troughs', 'parab': 0, 'family': 'ripple'},
         ]
 
     def generate(self, rng, tier):
@@ -176,6 +208,8 @@ class ExtremaSingle(Stream):
     def compare(self, case, out, results):
         r = results[0]
         if isinstance(out, ImplError):
+            if len(case['x']) < 3 and out['error'] != 'Timeout' and r.status == 'none':
+                return 'skip:short-input-rejected'      # no interior sample: rejecting instead of None is not judged
             return 'implementation raised %s (%s); model %s' % (out['error'], out['msg'][-120:], r.raw[:120])
         if self._illcond(case):
             return 'skip:ill-conditioned-refinement'
@@ -200,14 +234,22 @@ class ExtremaSingle(Stream):
         return None
 
     def holds(self, case, out):
+        inq = case['pad'] <= 5          # the quantifier: pad widths 0..5 (8 and 50 are run for the correspondence only)
         if isinstance(out, ImplError):
-            return [Failure('raises:' + out['error'], out['msg'])]
+            if len(case['x']) < 3 and out['error'] != 'Timeout':
+                return []               # no interior sample, no strict extremum: an input-validation error is not judged
+            return [Failure('raises:' + out['error'], out['msg'], literal=inq and out['error'] != 'Timeout')]
         if self._illcond(case):
             return []
-        tol = TOL * _scale(case['x'], len(case['x'])) if case['parab'] else 0.0
+        n = len(case['x'])
+        tol = TOL * _scale([], n) if case['parab'] else 0.0
+        mtol = TOL * _mscale(case['x'], n) if case['parab'] else 0.0
         if out is None:
-            return _ext.check_padded(case['x'], case['pad'], case['mode'], case['parab'], None, None)
-        return _ext.check_padded(case['x'], case['pad'], case['mode'], case['parab'], out['locs'], out['mags'], tol)
+            return _lit(_ext.check_padded(case['x'], case['pad'], case['mode'], case['parab'], None, None), inq)
+        fs = _ext.check_padded(case['x'], case['pad'], case['mode'], case['parab'], out['locs'], out['mags'], tol, mtol=mtol)
+        if not case['parab'] and not out['int']:
+            fs.append(Failure('locations-not-integer', 'unrefined locations %s are not sample indices' % (out['locs'][:8],)))
+        return _lit(fs, inq)
 
     def tags(self, case, out):
         t = ['mode=' + case['mode'], 'pad=%d' % case['pad'], 'parabolic=%d' % case['parab'], 'family=' + case.get('family', 'corpus')]
@@ -282,7 +324,6 @@ class NumpyPad(Stream):
 class Envelope(Stream):
     """interp_envelope(ret_extrema=True) against the model fed with the rebuilt interpolant's sample-grid table."""
     name = 'envelope'
-    REJECT_KINDS = ('ValueError', 'TypeError')
 
     def corpus(self):
         d17 = [0, 1, 0, 2, 0, 1, 0, 3, 1, 2, 0.5]
@@ -328,6 +369,14 @@ class Envelope(Stream):
                                          ('combined', 'pchip', 0), ('lower', 'splrep', 1)):
                 out.append({'x': uns, 'emode': emode, 'method': method, 'pad': 2, 'parab': parab, 'dtype': dt,
                             'family': 'corpus-dtype'})
+        # round-3 seeded changes: small physical units with refinement; 'combined' cubic spline undershooting zero in a quiet stretch
+        tiny = [v * 3e-13 for v in (0, 1, 0.25, 2, 0.5, 1.5, 0.1, 3, 1.2, 2.2, 0.5, 1.9, 0.3)]
+        for emode, method in (('upper', 'splrep'), ('lower', 'pchip'), ('combined', 'mono_pchip')):
+            out.append({'x': tiny, 'emode': emode, 'method': method, 'pad': 2, 'parab': 1, 'family': 'tiny'})
+        import math
+        gap = [(1.0 if (i // 16) % 2 == 0 else 0.01) * math.sin(2 * math.pi * 0.21 * i + 0.4) for i in range(96)]
+        for pad in (1, 2, 3):
+            out.append({'x': gap, 'emode': 'combined', 'method': 'splrep', 'pad': pad, 'parab': 0, 'family': 'bursts'})
         f32 = _ext.as_dtype([0.1, 1.3, 0.2, 2.7, -0.4, 1.1, 0.3, 3.9, 1.2, 2.2, 0.6], 'float32')
         for emode, method, parab in (('upper', 'splrep', 0), ('lower', 'pchip', 1), ('combined', 'splrep', 1)):
             out.append({'x': f32, 'emode': emode, 'method': method, 'pad': 2, 'parab': parab, 'dtype': 'float32',
@@ -359,8 +408,19 @@ class Envelope(Stream):
                 x = _ext.synth_signal(rng, n, fam)
             yield {'x': x, 'emode': rng.choice(list(_ext.EMODES)), 'method': rng.choice(_ext.METHODS),
                    'pad': rng.choice(_ext.PADS if rng.random() < 0.9 else [8, 50]),
-                   'parab': int(rng.random() < 0.5), 'col2d': int(rng.random() < 0.1), 'utils': int(rng.random() < 0.2),
-                   'family': fam}
+                   'parab': int(rng.random() < 0.5), 'col2d': int(rng.random() < 0.1), 'family': fam}
+        # bursts separated by quiet stretches, 'combined' cubic spline (undershoots zero in the gaps) and data in small physical
+        # units with parabolic refinement: the two corners of the quantifier that the uniform draw above reaches too rarely
+        for i in range(300 if tier == 'thorough' else 40):
+            if i % 2:
+                x = _ext.synth_signal(rng, rng.choice([64, 128, 200, 256]), 'bursts')
+                yield {'x': x, 'emode': 'combined' if rng.random() < 0.7 else rng.choice(['upper', 'lower']),
+                       'method': 'splrep' if rng.random() < 0.8 else rng.choice(_ext.METHODS), 'pad': rng.choice([1, 2, 3, 4, 5]),
+                       'parab': int(rng.random() < 0.3), 'family': 'bursts'}
+            else:
+                x = _ext.synth_signal(rng, rng.choice([16, 33, 64, 128]), 'tiny')
+                yield {'x': x, 'emode': rng.choice(list(_ext.EMODES)), 'method': rng.choice(_ext.METHODS),
+                       'pad': rng.choice([1, 2, 3, 4, 5]), 'parab': int(rng.random() < 0.8), 'family': 'tiny'}
         # input stored as int64 / int32 / float32 (case['x'] holds exactly the stored values)
         for i in range(1500 if tier == 'thorough' else 160):
             dt = rng.choice(_ext.DTYPES)
@@ -382,12 +442,11 @@ class Envelope(Stream):
                     x = _ext.synth_signal(rng, n, fam)
             yield {'x': _ext.as_dtype(x, dt), 'emode': rng.choice(list(_ext.EMODES)), 'method': rng.choice(_ext.METHODS),
                    'pad': rng.choice(_ext.PADS if rng.random() < 0.9 else [8, 50]),
-                   'parab': int(rng.random() < 0.4), 'col2d': int(rng.random() < 0.1), 'utils': int(rng.random() < 0.2),
-                   'family': fam, 'dtype': dt}
+                   'parab': int(rng.random() < 0.4), 'col2d': int(rng.random() < 0.1), 'family': fam, 'dtype': dt}
 
     def impl(self, case):
         return _ext.call_env(case['x'], case['emode'], case['method'], case['pad'], case['parab'],
-                             case.get('col2d', 0), case.get('utils', 0), dtype=case.get('dtype'))
+                             case.get('col2d', 0), dtype=case.get('dtype'))
 
     def ops(self, case, out):
         tab = None if (isinstance(out, ImplError) or out.get('none')) else out['tab']
@@ -407,8 +466,10 @@ class Envelope(Stream):
         if isinstance(out, ImplError):
             if r.status == 'err' and r.words == [out['error']]:
                 return None
-            if r.status == 'err' and self._rejected(case) and out['error'] in self.REJECT_KINDS:
-                return None    # pad_width=0, fewer than 4 knots: scipy's spline constructor refuses first (TypeError)
+            if r.status == 'err' and self._rejected(case) and out['error'] != 'Timeout':
+                return None    # pad_width=0: rejected, by whichever layer refuses first (e.g. scipy's spline constructor: TypeError)
+            if len(case['x']) < 3 and out['error'] != 'Timeout' and r.status == 'none':
+                return 'skip:short-input-rejected'
             return 'implementation raised %s (%s); model %s' % (out['error'], out['msg'][-120:], r.raw[:120])
         if out.get('none'):
             return None if r.status == 'none' else 'implementation None, model %s' % r.raw[:160]
@@ -439,24 +500,32 @@ class Envelope(Stream):
     def holds(self, case, out):
         x = case['x']
         n = len(x)
+        inq = case['pad'] <= 5          # the quantifier: pad widths 0..5 (8 and 50 are run for the correspondence only)
         if isinstance(out, ImplError):
-            if out['error'] in self.REJECT_KINDS and self._rejected(case):
-                return []
-            return [Failure('raises:' + out['error'], out['msg'])]
+            if out['error'] != 'Timeout' and (self._rejected(case) or n < 3):
+                return []               # "rejected": any error class will do (pad_width=0 cannot give one value per sample)
+            return [Failure('raises:' + out['error'], out['msg'], literal=inq and out['error'] != 'Timeout')]
+        return _lit(self._holds(case, out), inq)
+
+    def _holds(self, case, out):
+        x = case['x']
+        n = len(x)
         mode = _ext.EMODES[case['emode']]
         ext = _ext.strict_extrema(x, mode)
         if out.get('none'):
             return [Failure('envelope-missing', '%d strict extrema but None returned' % len(ext))] if len(ext) >= 2 else []
         if len(ext) < 2:
-            return [Failure('envelope-with-fewer-than-two-extrema', '')]
+            # what is returned when there is nothing to interpolate is the code's convention (None), not the statement's
+            return [Failure('envelope-with-fewer-than-two-extrema', '', literal=False)]
         fs = []
-        tol = TOL * _scale(x + out['mags'], n)
+        tol = TOL * _mscale(x, n)
+        ltol = TOL * _scale([], n)
         par = ':parabolic' if case['parab'] else ':integer-extrema'
         if len(out['env']) != n:
             return [Failure('envelope-length' + par, '%d values for %d samples' % (len(out['env']), n))]
         # validated assumption: the rebuilt interpolant passes through its knots
         if any(abs(a - b) > tol for a, b in zip(out['knots'], out['mags'])):
-            fs.append(Failure('oracle:interpolant-misses-knot', 'method %s' % case['method']))
+            fs.append(Failure('oracle:interpolant-misses-knot', 'method %s' % case['method'], literal=False))
         # the envelope is the interpolant through the returned extrema at each sample's own integer index
         bad = [i for i in range(n) if abs(out['env'][i] - out['tab'][i]) > tol]
         if bad:
@@ -470,8 +539,8 @@ class Envelope(Stream):
             if miss:
                 fs.append(Failure('envelope-misses-extremum', 'sample %d: envelope %r, signal %r' % (miss[0], out['env'][miss[0]], x[miss[0]])))
         if not self._illcond(case):
-            ptol = tol if case['parab'] else 0.0
-            fs += _ext.check_padded(x, case['pad'], mode, case['parab'], out['locs'], out['mags'], ptol, prefix='env:')
+            fs += _ext.check_padded(x, case['pad'], mode, case['parab'], out['locs'], out['mags'], ltol if case['parab'] else 0.0,
+                                    prefix='env:', mtol=tol if case['parab'] else 0.0, need_cover=True)
         return fs
 
     def tags(self, case, out):
@@ -487,8 +556,6 @@ class Envelope(Stream):
             t.append('first-location-fractional' if frac else 'first-location-integral')
         if case.get('col2d'):
             t.append('2d-column-input')
-        if case.get('utils'):
-            t.append('via-emd.utils')
         return t
 
     def nontrivial(self, case, out):
@@ -503,9 +570,8 @@ class Envelope(Stream):
                 yield dict(case, x=x[:n - cut])
         if any(v != round(v, 1) for v in x):
             yield dict(case, x=_ext.as_dtype([round(v, 1) for v in x], case.get('dtype')))
-        for k in ('col2d', 'utils'):
-            if case.get(k):
-                yield dict(case, **{k: 0})
+        if case.get('col2d'):
+            yield dict(case, col2d=0)
         if case['method'] != 'pchip':
             yield dict(case, method='pchip')
 
